@@ -210,6 +210,20 @@ class AbsInt:
             return self.calls[dotted](*args)
         if isinstance(f, ast.Attribute) and ('.' + f.attr) in self.calls:
             return self.calls['.' + f.attr](self.ev(f.value, env), *args)
+        if isinstance(f, ast.Attribute) and f.attr == 'get' and 1 <= len(args) <= 2 and not c.keywords:
+            recv = self.ev(f.value, env)
+            if type(recv) is dict and args[0] is not UNKNOWN:
+                try:
+                    return recv.get(args[0], args[1] if len(args) == 2 else None)
+                except TypeError:
+                    return UNKNOWN
+        if name == 'getattr' and 2 <= len(args) <= 3 and isinstance(args[1], str) and args[0] is not UNKNOWN:
+            if isinstance(args[0], Rec):
+                if args[1] in args[0]:
+                    return args[0][args[1]]
+                return args[2] if len(args) == 3 else UNKNOWN
+            if isinstance(args[0], (Obj, str, int, float)) and len(args) == 3 and args[1] in ('__self__', '__func__'):
+                return args[2]  # plain functions / values have no bound receiver
         if isinstance(f, ast.Attribute) and f.attr == 'join' and len(args) == 1:
             sep = self.ev(f.value, env)
             if isinstance(sep, str) and isinstance(args[0], (list, tuple)) and all(isinstance(x, str) for x in args[0]):
